@@ -22,7 +22,7 @@ import (
 	"github.com/flamego/flamego/verifharness/internal/gen"
 )
 
-const rule = "case = request method in {GET, HEAD, POST, PUT, DELETE, OPTIONS, \"\"} x an underlying writer (with or without http.Flusher, with or without io.ReaderFrom; sometimes itself a fresh flamego ResponseWriter around the spy; one case in five: the writer is the one a handler gets from its request context, after an earlier request on the same application registered 0..2 functions on its own response and wrote nothing) x a history of 1..14 operations over {WriteHeader(100..999; with an underlying writer that refuses other codes by panicking also 0, 99, 1000, -1), Write / io.WriteString / io.Copy of 0..64 bytes or of 0.5..70 KB (optionally cut short by the underlying writer with an error), Flush, Before(hook)}; hooks set a header, read Status()/Written(), log themselves and sometimes register one more function while they run; a Content-Length response header may be set at any point of a HEAD response. Second check: responses of many writes (up to a few thousand) of 1..32 MiB into an underlying writer that only counts (totals around 2^31 and 2^32 bytes): Size() equals what was forwarded. " +
+const rule = "case = request method in {GET, HEAD, POST, PUT, DELETE, OPTIONS, \"\"} x an underlying writer (with or without http.Flusher, with or without io.ReaderFrom; sometimes itself a fresh flamego ResponseWriter around the spy; one case in five: the writer is the one a handler gets from its request context, after an earlier request on the same application registered 0..2 functions on its own response and wrote nothing) x a history of 1..14 operations over {WriteHeader(100..999; with an underlying writer that refuses other codes by panicking also 0, 99, 1000, -1), Write / io.WriteString / io.Copy of 0..64 bytes or of 0.5..70 KB (optionally cut short by the underlying writer with an error, or taken only N bytes per call without one), Flush, Before(hook)}; hooks set a header, read Status()/Written(), log themselves and sometimes register one more function while they run; a Content-Length response header may be set at any point of a HEAD response. Second check: responses of many writes (up to a few thousand) of 1..32 MiB into an underlying writer that only counts (totals around 2^31 and 2^32 bytes): Size() equals what was forwarded. " +
 	"Oracle: a state-machine model written from the statement, compared after every step (Status, Written, Size, return values of Write) together with invariants over the log of calls the underlying writer received (<=1 WriteHeader, before every Write/Flush; hooks registered before the trigger ran exactly once, in reverse order, before that WriteHeader, and saw Status()==0; later hooks never run). " +
 	"non-trivial = a history with >=2 hooks and a trigger, or a second WriteHeader / an implicit 200, or a body write on HEAD, or a short write; distinct by case text"
 
@@ -30,7 +30,7 @@ var assumptions = []string{
 	"hooks do not write to the response themselves (re-entering the writer from a hook is a caller error)",
 	"status codes outside 100..999 are only used with an underlying writer that refuses them by panicking, as net/http's does (a writer that takes WriteHeader(0) cannot be told from one that was never called)",
 	"hooks do not panic (C15 has those)",
-	"the underlying writer keeps io.Writer's contract: a count short of the length comes with an error (what the wrapper does with a writer that reports a short count and no error is not generated)",
+	"an underlying writer that reports a short count without an error (against io.Writer's contract) is generated, but only Size() == bytes it took is demanded then; what Write itself reports in that situation is open",
 }
 
 func TestMain(m *testing.M) { evid.Main(m, "C13", rule, assumptions) }
@@ -39,6 +39,13 @@ type Op struct {
 	K     string `json:"op"` // wh | w | ws (io.WriteString) | cp (io.Copy from a plain reader) | f | before
 	V     int    `json:"v,omitempty"`
 	Short int    `json:"short,omitempty"` // w: the underlying writer accepts only V-Short bytes and errors (when >0)
+	// Chunk (w, ws): during this operation the underlying writer takes at most
+	// Chunk bytes per call and reports no error (a capping / chunking writer
+	// below; against io.Writer's contract, but "the reported size equals the body
+	// bytes actually forwarded" does not depend on the manners of the writer
+	// below). What Write returns then is open (the short count as it is, or the
+	// whole after handing the rest over again); Size() is what was taken.
+	Chunk int `json:"underlying_takes_at_most,omitempty"`
 	// Nest (before): while it runs, the hook registers one more function -
 	// too late to count as "registered before the first write"; whether that one
 	// runs is left open, the ones registered in time are not affected by it.
@@ -75,6 +82,7 @@ type spy struct {
 	h     http.Header
 	log   []string
 	short int // next Write is cut by this many bytes
+	chunk int // while > 0: at most this many bytes per call, no error
 	body  int
 	// strict: a status code outside 100..999 is refused with a panic, as
 	// net/http's own writer does
@@ -98,6 +106,8 @@ func (s *spy) Write(b []byte) (int, error) {
 		}
 		err = errors.New("short write")
 		s.short = 0
+	} else if s.chunk > 0 && n > s.chunk {
+		n = s.chunk
 	}
 	s.body += n
 	s.log = append(s.log, fmt.Sprintf("W %d", n))
@@ -164,6 +174,7 @@ func checkCase(c Case) (out evid.Outcome) {
 		second := false
 		headWrite := false
 		shortSeen := false
+		chunked := false
 		refused := false
 
 		trigger := func(code int) {
@@ -246,6 +257,9 @@ func checkCase(c Case) (out evid.Outcome) {
 						wantErr = true
 						s.short = op.Short
 					}
+					if op.Chunk > 0 && op.Short == 0 {
+						s.chunk = op.Chunk
+					}
 					mSize += wantN
 				} else if op.V > 0 {
 					headWrite = true
@@ -282,6 +296,20 @@ func checkCase(c Case) (out evid.Outcome) {
 					n, err = w.Write(make([]byte, op.V))
 				}
 				s.short = 0
+				if s.chunk > 0 {
+					// a writer below that took the bytes piecewise without an error:
+					// what it took during this call is what was forwarded
+					s.chunk = 0
+					if op.Chunk < op.V {
+						chunked = true
+					}
+					took := s.body - (mSize - wantN)
+					if n < 0 || n > op.V || took > op.V {
+						return fail(out, "write-result", "%s: Write of %d bytes returned (%d, %v) and the underlying writer (at most %d bytes per call, no error) took %d", desc, op.V, n, err, op.Chunk, took)
+					}
+					mSize += took - wantN
+					n, err = wantN, nil
+				}
 				if c.Method == http.MethodHead {
 					// nothing is forwarded; the statement leaves the reported count open
 					// (all bytes "consumed", or none), but it is not an error
@@ -389,6 +417,10 @@ func checkCase(c Case) (out evid.Outcome) {
 		if shortSeen {
 			out.NonTrivial = true
 			out.Classes = append(out.Classes, "short-write")
+		}
+		if chunked {
+			out.NonTrivial = true
+			out.Classes = append(out.Classes, "short-count-without-error")
 		}
 		if c.Stacked {
 			out.NonTrivial = true
@@ -525,6 +557,12 @@ func genCase(t *rapid.T) Case {
 			}
 			if op.K != "cp" && rapid.IntRange(0, 5).Draw(t, "short") == 0 && op.V > 0 {
 				op.Short = rapid.IntRange(1, op.V).Draw(t, "cut")
+			}
+			if op.K != "cp" && op.Short == 0 && op.V > 1 && rapid.IntRange(0, 6).Draw(t, "chunked") == 0 {
+				op.Chunk = rapid.IntRange(1, op.V-1).Draw(t, "chunk")
+				if op.V > 4096 && op.Chunk < op.V/64 {
+					op.Chunk = op.V / 64 // a looping wrapper needs V/Chunk calls
+				}
 			}
 			c.Ops = append(c.Ops, op)
 		case k < 6:
